@@ -352,6 +352,145 @@ def run_r5(ctx, rule):
     if m < 2:
         rule.bad("transfer/return-sites", "only %d returns from the gate arm found (2 expected)" % m, kind="anchor-missing")
 
+# ---- R6 -----------------------------------------------------------------------------------------
+def run_r6(ctx, rule):
+    """every constant fold is an identity of AND: for each path of the fold decision that assigns a replacement,
+    AND(lit(c0), lit(c1)) == replacement for every pair of input codes satisfying the path's conditions.  The
+    conditions only compare the two codes with 0 / 1 / each other (possibly through `& !1`, `^ 1`, `| 1`), so the
+    six codes {false, true, x, !x, y, !y} exhibit every case (small-model argument); decided by enumeration of
+    the extracted *conditions*, the function is not run."""
+    facts = ctx.facts
+    f = afn(facts, "Renumber::transfer")
+    sy = sym(f)
+    c = cfg(f)
+    maps = [(bb, t) for bb, t in f.calls() if norm(util.cname(t)).endswith("::map") and "array" in util.cname(t)]
+    if len(maps) != 1 or maps[0][1]["dest"]["p"]:
+        rule.bad("fold/anchor", "anchor missing: `codes = inputs.map(|l| l.code())` in transfer (found %d)" % len(maps), kind="anchor-missing")
+        return
+    mbb, mt = maps[0]
+    CL = mt["dest"]["l"]
+    arr = sy.operand(mt["args"][0])
+    clo = sy.operand(mt["args"][1])
+    # the closure maps a literal to its code
+    ok_clo = False
+    for i, g in facts.fns.items():
+        if g.kind == "Closure" and clo[0] == "agg" and clo[1] == g.id or (g.kind == "Closure" and norm(i).startswith(norm(f.id) + "::{closure") and any(norm(util.cname(t2)).endswith("Lit::code") for _, t2 in g.calls()) and len(list(g.calls())) == 1):
+            ok_clo = True
+    rule.check(ok_clo and arr[0] == "f" and arr[2] == "inputs", "fold/codes", "codes[i] is the code of def.inputs[i]", f.loc(mbb))
+    start = mt["target"]
+    # replacement assignments: X = Some(v) in the region behind the map call, stored into one local
+    repl = []
+    for fn2, bi, si, rv in util.aggregates(facts, lambda a: a == "core::option::Option"):
+        if fn2 is f and rv["variant"] == "Some" and c.dominates(start, bi):
+            v = sy.operand(rv["ops"][0])
+            repl.append((bi, v))
+    M64 = (1 << 64) - 1
+
+    def ev(e, cs):
+        k = e[0]
+        if k == "c":
+            return e[1]
+        if k == "idx" and (e[1] == ("l", CL) or (e[1][0] == "call" and e[1][1] == mbb)):
+            i = ev(e[2], cs)
+            return cs[i]
+        if k == "cast":
+            return ev(e[2], cs)
+        if k == "un" and e[1] == "Not":
+            v = ev(e[2], cs)
+            return (not v) if isinstance(v, bool) else (~v) & M64
+        if k == "bin":
+            a, b = ev(e[2], cs), ev(e[3], cs)
+            op = e[1].replace("Unchecked", "")
+            return {"Eq": lambda: a == b, "Ne": lambda: a != b, "Lt": lambda: a < b, "Le": lambda: a <= b, "Gt": lambda: a > b, "Ge": lambda: a >= b,
+                    "BitAnd": lambda: a & b, "BitOr": lambda: a | b, "BitXor": lambda: a ^ b, "Add": lambda: (a + b) & M64, "Sub": lambda: (a - b) & M64}[op]()
+        raise KeyError(str(e)[:60])
+
+    def holds(fact, cs):
+        if fact[0] == "cmp":
+            return ev(("bin", fact[1], fact[2], fact[3]), cs)
+        if fact[0] == "bool":
+            return bool(ev(fact[1], cs)) == fact[2]
+        if fact[0] == "eq":
+            return ev(fact[1], cs) == fact[2]
+        if fact[0] == "notin":
+            return ev(fact[1], cs) not in fact[2]
+        raise KeyError(str(fact)[:60])
+
+    def code_of(v):
+        """replacement literal as (kind, payload): constant code or one of the inputs"""
+        if v[0] == "call" and norm(v[2]).endswith("Lit::from_code") and v[3][0][0] == "c":
+            return ("const", v[3][0][1])
+        if v[0] == "idx" and v[1][0] == "f" and v[1][2] == "inputs" and v[2][0] == "c":
+            return ("input", v[2][1])
+        return None
+
+    def val(code, env):
+        if code < 2:
+            return bool(code)
+        b = env[(code >> 1) - 1]
+        return (not b) if code & 1 else b
+
+    D = range(6)
+    n_paths = 0
+    targets = {}
+    for bi, v in repl:
+        co = code_of(v)
+        if co is None:
+            continue  # not a fold replacement (e.g. Some(..) of another computation)
+        targets[bi] = co
+    if len(targets) < 3:
+        rule.bad("fold/replacements", "only %d fold replacements found (3 counted: constant false, inputs[1], inputs[0])" % len(targets), kind="anchor-missing")
+    # acyclic paths from the start of the decision to each replacement block
+    def paths_to(goal):
+        out = []
+        st = [(start, [start])]
+        while st:
+            x, p = st.pop()
+            if x == goal:
+                out.append(p)
+                continue
+            if x in targets or len(p) > 60:
+                continue
+            for s2 in c.succ[x]:
+                if s2 not in p and not f.blocks[s2]["cleanup"] and c.dominates(start, s2):
+                    st.append((s2, p + [s2]))
+        return out
+    per = {}
+    for goal, co in sorted(targets.items()):
+        cname = "const%d" % co[1] if co[0] == "const" else "inputs%d" % co[1]
+        for p in sorted(paths_to(goal)):
+            n_paths += 1
+            per[cname] = per.get(cname, 0) + 1
+            conds = []
+            for a, b in zip(p, p[1:]):
+                if f.term(a)["k"] == "switch":
+                    fs = [fa for tgt, fa in guards.switch_edges(f, a) if tgt == b]
+                    conds += fs
+            bad = None
+            try:
+                for c0 in D:
+                    for c1 in D:
+                        if c1 > c0:
+                            continue  # inputs are sorted by descending code (C12-R4)
+                        if not all(holds(fa, (c0, c1)) for fa in conds):
+                            continue
+                        rc = co[1] if co[0] == "const" else (c0, c1)[co[1]]
+                        for env in ((False, False), (False, True), (True, False), (True, True)):
+                            if (val(c0, env) and val(c1, env)) != val(rc, env):
+                                bad = "inputs with codes (%d, %d) are folded to %s, but AND differs (e.g. for x=%s, y=%s)" % (c0, c1, "code %d" % rc, env[0], env[1])
+                                break
+                        if bad:
+                            break
+                    if bad:
+                        break
+            except KeyError as e:
+                rule.bad("fold/condition/%s/%d" % (cname, per[cname]), "a fold condition is outside the decided fragment: %s" % e, f.loc(goal), kind="unmodelled-idiom")
+                continue
+            names = {0: "x", 1: "true"}
+            rule.check(bad is None, "fold/identity/%s/%d" % (cname, per[cname]), "fold to %s under [%s] is an identity of AND%s" % ("constant %d" % co[1] if co[0] == "const" else "inputs[%d]" % co[1], "; ".join(guards.show_fact(f, fa) for fa in conds)[:120], "" if bad is None else " -- " + bad), f.loc(goal))
+    rule.note("fold_paths", n_paths)
+
+
 def run(ctx):
     r1 = ctx.rule("C12-R1", "the renumbering code is not recursive (explicit stack)", floor=2)
     run_r1(ctx, r1)
@@ -363,5 +502,7 @@ def run(ctx):
     run_r4(ctx, r4)
     r5 = ctx.rule("C12-R5", "polarity discipline of LitMap and transfer", floor=8)
     run_r5(ctx, r5)
-    ctx.assume("Boolean equivalence of the renumbered circuit, the const-fold case analysis, hash-consing and completeness of the cycle detection are value-level and NOT decided")
+    r6 = ctx.rule("C12-R6", "every constant fold is an identity of AND (each decision path checked over the six representative codes)", floor=5)
+    run_r6(ctx, r6)
+    ctx.assume("Boolean equivalence of the renumbered circuit as a whole, hash-consing and completeness of the cycle detection are value-level and NOT decided (the const-fold case analysis is decided by C12-R6)")
     return "other", "structural necessary conditions of the renumbering: recursion freedom, definition coverage, error producers, ordering and polarity facts (functional equivalence itself is not decided)", {}
